@@ -100,11 +100,12 @@ def run_shard(spec, acc):
     for c in range(n_cfg):
         pool = hist.Pool(dbx, rng, n_single=6, n_fast=4)
         kwargs, nums, ids, kind, style, claim_mode = make_config(pool, rng, c + spec["i"])
-        claims = {s: [hist.claim_name(rng.randrange((1 << 21) - 3), rng.choice([1851, 1855, 137, 229]), function=rng.choice([130, 140]),
+        sources = hist.pick_sources(rng, 3)          # other addresses every time, also ones the code mentions literally
+        claims = {s: [hist.claim_name(hist.pick_unique_number(rng), rng.choice([1851, 1855, 137, 229]), function=rng.choice([130, 140]),
                                       dev_class=rng.choice([25, 60])) for _ in range(2)] for s in sources}
         # two addresses sometimes claim the same NAME (a device that moved to another address)
         if c % 2 == 0:
-            shared_name = hist.claim_name(rng.randrange((1 << 21) - 3), rng.choice([1851, 1855, 137, 229]))
+            shared_name = hist.claim_name(hist.pick_unique_number(rng), rng.choice([1851, 1855, 137, 229]))
             for s_ in rng.sample(sources, 2):
                 claims[s_] = claims[s_] + [shared_name]
         jump = False
